@@ -261,6 +261,7 @@ class ScriptHandler(S.HttpRequestHandler):
 
 
 _installed = False
+_second = None
 _server = None
 _port = None
 
@@ -295,6 +296,11 @@ def server_port():
         _server = S.HttpServer([ScriptHandler(i) for i in range(MAXH)], "::1", 0)
         _server.start()
         _port = _server._server.server_address[1]
+        # a SECOND live server object with another handler list (none): per-server state must not live in a class
+        global _second
+        _second = S.HttpServer([], "::1", 0)
+        _second.start()
+        atexit.register(_second.stop)
         # socketserver prints a traceback when a worker dies because the client went away while http.server itself was
         # writing; that is outside vinegar's code: keep the output clean
         _server._server.handle_error = lambda request, client_address: None
@@ -470,6 +476,23 @@ class C03(Check):
         requests in between and afterwards - every one answered within the deadline"""
         deadline = 2.0
         hist = []
+        server_port()
+        # the second server object (no handlers) answers 404 and leaves the first one alone
+        try:
+            sk = socket.create_connection(("::1", _second._server.server_address[1]), timeout=deadline)
+            sk.sendall(b"GET /c/other-server HTTP/1.0\r\n\r\n")
+            other = b""
+            while True:
+                d = sk.recv(65536)
+                if not d:
+                    break
+                other += d
+            sk.close()
+        except OSError as ex:
+            other = repr(ex).encode()
+        if not other.startswith(b"HTTP/1.0 "):          # that it answers; a class-level handler list would show on the FIRST server
+            return ({"_extra": True, "probe": "a second HttpServer object with an empty handler list, alive next to the first",
+                     "its_answer": common._jsonable(other[:80])}, ["keeps_answering_subsequent_requests"], None, None)
         kinds = [("handle raises", dict(act=None, exc=("RuntimeError", 0))), ("prepare_context raises", dict(prep_raises=True, act=(200, None, None))),
                  ("handle returns a 2-tuple", dict(act=None, exc="badresult")), ("can_handle raises", dict(can_raises=True, act=(200, None, None))),
                  ("handle raises OSError", dict(act=None, exc=("ConnectionResetError", 1))), ("body stream fails", dict(act=(200, None, (b"x", True))))]
@@ -536,6 +559,20 @@ class C03(Check):
             yield self.mk("GET", [handler(act=(200, None, (data, False, ("bytesio", None, 0))))])
             for k in (0, 1, len(data) // 2, len(data) - 1):
                 yield self.mk("GET", [handler(act=(200, H(1), (data, True, ("failmid", "1000", k))))])
+        # header NAMES that collide with what http.server emits itself (Server, Date; Connection / Content-Type / Content-Length
+        # on the error path), in every letter case and repeated: the handler's headers are all sent, after the library's
+        lib = ["Date", "date", "DATE", "Server", "server", "SERVER", "Content-Length", "content-length", "Content-Type",
+               "CONTENT-TYPE", "content-type", "Connection", "X-Date", "Last-Modified", "X-Server-Id"]
+        vals = {"date": "Mon, 01 Jan 2001 00:00:00 GMT", "server": "mirror/1.0", "content-length": "5", "content-type": "text/x-verif",
+                "connection": "close"}
+        for name in lib:
+            v = vals.get(name.lower(), "v")
+            for st, b in ((200, (b"12345", False)), (404, None), (200, None), (500, (b"12345", False))):
+                yield self.mk("GET", [handler(act=(st, [(name, v)], b))])
+            yield self.mk("HEAD", [handler(act=(200, [("X-Before", "1"), (name, v), ("X-After", "2")], (b"12345", False)))])
+        yield self.mk("GET", [handler(act=(200, [("Date", "a"), ("date", "b"), ("DATE", "c"), ("Server", "d"), ("server", "e")], (b"12345", False)))])
+        yield self.mk("GET", [handler(act=(404, [("Content-Type", "a"), ("content-type", "b"), ("Content-Length", "5"), ("Connection", "close")],
+                                           (b"12345", False)))])
         # falsy but valid header values, names that differ only in letter case
         yield self.mk("GET", [handler(act=(200, [("X-Empty", ""), ("X-Zero", "0"), ("x-empty", " "), ("X-EMPTY", "False")], (b"b", False)))])
         yield self.mk("GET", [handler(act=(404, [("X-Empty", "")], None))])
@@ -594,6 +631,9 @@ class C03(Check):
                         seen = set()
                         while len(hd) < hk:
                             name = "".join(rng.choice(TCHARS) for _ in range(rng.randrange(1, 12)))
+                            if rng.random() < 0.25:      # names the library emits itself, in a random letter case
+                                name = "".join(ch.upper() if rng.random() < 0.5 else ch.lower()
+                                               for ch in rng.choice(["date", "server", "content-length", "content-type"]))
                             if name.lower() == "connection" or name in seen:
                                 continue
                             seen.add(name)
